@@ -403,6 +403,15 @@ func (in *Inst) adopt(o *obs) {
 		}
 	}
 	in.adoptPending = false
+	for _, k := range in.m.sortedKeys() {
+		mk := in.m.keys[k]
+		if mk.lock != nil && mk.recByStart(mk.lock.ts) != nil {
+			// A lock next to a commit/rollback record of the same transaction is not a state of
+			// the reference model (only a reported deviation leads here): nothing is specified
+			// for what follows, so the branch ends.
+			in.kill("adopted-state-outside-spec", k)
+		}
+	}
 }
 
 func (in *Inst) fillValue(mk *mkey, k string, start uint64, kind byte) {
